@@ -73,8 +73,8 @@ theorem exec_eq (sv : Server) (id : String) (now : Int) :
       (let c := sv.conn id
        if c.state % 2 ≠ 1 then (resetConn sv id, [Tok.err 0]) else
        if (c.state / 4) % 2 = 1 then (resetConn sv id, [Tok.err 2]) else
-       if c.queue.isEmpty then (resetConn sv id, [Tok.arr 0]) else
        if c.watch.any (·.2) then (resetConn sv id, [Tok.nullBulk]) else
+       if c.queue.isEmpty then (resetConn sv id, [Tok.arr 0]) else
        let r := execLoop now c.queue
          (sv.setConn id { c with state := c.state + multiCommit - (if (c.state / 2) % 2 = 1 then multiCommit else 0) },
           [Tok.arr c.queue.length])
